@@ -214,7 +214,8 @@ def same_arg(a, b):
     if isinstance(a, (ROMapping, types.MappingProxyType)):
         return list(a.items()) == list(b.items()) or repr(list(a.items())) == repr(list(b.items()))
     if isinstance(a, MultiDict.__mro__[0]) or hasattr(a, "getall"):
-        return list(a.items()) == list(b.items())
+        # (a copied NaN of a float subclass is a different object and NaN != NaN: compare by repr then)
+        return list(a.items()) == list(b.items()) or repr(list(a.items())) == repr(list(b.items()))
     if isinstance(a, dict):
         return list(a.items()) == list(b.items()) or _nan_eq(a, b)
     return a == b or _nan_eq(a, b)
@@ -434,8 +435,18 @@ def run_kernel(ctx):
     ctx.sample({"url": "http://example.com/p?a=o0&b=o1&a=o2#frag", "op": "update_query", "form": "list", "arg": [["a", "n0"], ["c", "n1"]]})
 
 
-VALUES_BAD = [True, False, None, float("nan"), float("inf"), float("-inf"), b"x", bytearray(b"y"), object]
 from ..ops import IntSub, FloatSub, StrSub
+
+
+class Limits(float, enum.Enum):
+    UNBOUNDED = float("inf")
+    NEG = float("-inf")
+    HALF = 0.5
+
+
+# a value is judged by what it IS, not by its exact type: float subclasses (enum members, wrappers) that are not finite are as bad as float('inf')
+VALUES_BAD = [True, False, None, float("nan"), float("inf"), float("-inf"), b"x", bytearray(b"y"), object,
+              FloatSub(float("inf")), FloatSub(float("-inf")), FloatSub(float("nan")), Limits.UNBOUNDED, Limits.NEG, memoryview(b"z"), [b"x"], {"k": "v"}, 1j]
 
 # numerically equal values of different kinds must each render by their own str(): 7 / 7.0 / IntSub(7), 0.0 / -0.0, 1 / True-like enums
 VALUES_OK = [0, -1, 10**30, 1.5, -0.0, 0.0, 1e100, 0.1, Color.RED, Color.BIG, 7, 7.0, IntSub(7), FloatSub(7.0), IntSub(0), 1, 1.0, IntSub(1), 1000, 1e3, 2**64, 1e16, 1.7e18, -2.5e300, 1e-7]
